@@ -197,7 +197,7 @@ func checkC05(cx *Ctx, r *Report) {
 		if len(sites) == 0 {
 			r.Fail("R-VFG", "sso:WantAuthnRequestsSigned", "", "the IdP descriptor consulted by the SSO handler never gets WantAuthnRequestsSigned")
 		} else {
-			r.checkSources("R-VFG", "sso:WantAuthnRequestsSigned", w.InstrPos(sites[0]), ls, []string{"param:*conf.WantAuthRequestsSigned"}, []string{"param:*conf.WantAuthRequestsSigned"}, true)
+			r.checkSources("R-VFG", "sso:WantAuthnRequestsSigned", w.InstrPos(sites[0]), ls, []string{"param:*.WantAuthRequestsSigned"}, []string{"param:*.WantAuthRequestsSigned"}, true)
 		}
 	}
 	r.Min("R-XSBOOL", 4)
@@ -230,11 +230,11 @@ func checkC05(cx *Ctx, r *Report) {
 					if a.Neg {
 						bindingExcluded = true
 					}
-				case a.Op == "NIL" && strings.HasSuffix(a.A, "sp.Metadata"):
+				case a.Op == "NIL" && strings.HasSuffix(a.TA, "<serviceprovider.ServiceProvider>.Metadata"):
 					set(&spNil, !a.Neg)
 				case a.Op == "NIL" && strings.HasSuffix(a.A, ".SPSSODescriptor"):
 					set(&descNil, !a.Neg)
-				case a.Op == "NIL" && (strings.HasSuffix(a.A, "/metadata") || strings.HasSuffix(a.A, "idpMeta")):
+				case a.Op == "NIL" && a.TA == "<md.IDPSSODescriptorType>":
 					set(&idpNil, !a.Neg)
 				case strings.HasPrefix(a.Op, "CALL:") && strings.HasSuffix(a.A, ".AuthnRequestsSigned") && cx.isHelperAtom(a, helpers):
 					set(&spFlag, !a.Neg)
@@ -378,7 +378,7 @@ func checkC05(cx *Ctx, r *Report) {
 	// the persisted request object is the decoded one
 	ls, sites := vf.CallArgSources(matchStorage("CreateAuthRequest"), 1)
 	if len(sites) > 0 {
-		r.checkSources("R-VFG", "sso:CreateAuthRequest:request", w.InstrPos(sites[0]), ls, []string{"alloc:xml.*", "decoded:samlp.AuthnRequestType", "const:zero"}, []string{"decoded:samlp.AuthnRequestType"}, false)
+		r.checkSources("R-VFG", "sso:CreateAuthRequest:request", w.InstrPos(sites[0]), ls, []string{"alloc:{samlp.AuthnRequestType}*", "decoded:samlp.AuthnRequestType", "const:zero"}, []string{"decoded:samlp.AuthnRequestType"}, false)
 	}
 	// key material
 	ls, sites = vf.CallArgSources(matchFnKey(w, "signature.ValidateRedirect"), 3)
